@@ -88,6 +88,30 @@ func (ex *Exec) callStringMethod(fr *frame, i iface, name string) (value, bool) 
 	return nil, false
 }
 
+// callMethod calls a method by name if the dynamic type has it.
+func (ex *Exec) callMethod(fr *frame, i iface, name string, args []value) (value, bool) {
+	if i.t == nil {
+		return nil, false
+	}
+	ms := ex.prog.prog.MethodSets.MethodSet(i.t)
+	for k := 0; k < ms.Len(); k++ {
+		sel := ms.At(k)
+		if sel.Obj().Name() != name || !sel.Obj().Exported() {
+			continue
+		}
+		sig := sel.Type().(*types.Signature)
+		if sig.Params().Len() != len(args) || sig.Results().Len() != 1 {
+			return nil, false
+		}
+		fn := ex.prog.prog.MethodValue(sel)
+		if fn == nil {
+			return nil, false
+		}
+		return ex.call(fr, 0, fn, append([]value{i.v}, args...)), true
+	}
+	return nil, false
+}
+
 type hostText struct{ s string }
 
 func (h hostText) String() string { return h.s }
